@@ -3,7 +3,7 @@
 
    Dispatch rule: zlb_recv = false is what /repo HEAD implements (a ZLB only acknowledges, since 96f9f16);
    zlb_recv = true is the rule before that fix, kept only for the historical refuted witness.
-   All five C16 findings are fixed in /repo (96f9f16 3558639 63cd1b1 e6d010e e462f04).
+   All six C16 findings are fixed in /repo (96f9f16 3558639 63cd1b1 e6d010e e462f04 1a77bf9).
    Events carry the send-callback faults of the operation: [fj] (which write of a driveSend fails) and
    [drops] (which writes of a Tick fail); theorems quantify over all of them unless stated. *)
 From OV Require Import Common.Base C16.Model C16.Proofs.
@@ -403,12 +403,12 @@ Print Assumptions C16_runner_zlb_nonvacuous.
 (* ONE CONTROL CONNECTION = ONE TUNNEL.  For every sequence of events on one (peer, Assigned Tunnel ID) key — copies
    of the SCCRQ at any point (retransmitted, duplicated, delayed past the SCCCN, past the teardown), teardowns,
    anything else — the SCCRQ handler runs at most once: at most one tunnel is opened and one SCCRP produced.  This is
-   the rule with the closed-connection record; without it ([linger] = false) a copy delayed past the teardown opens a
-   second tunnel (C16_sccrq_once_refuted). *)
+   the rule of /repo HEAD (closed-connection record, 1a77bf9); before that fix ([linger] = false) a copy delayed past
+   the teardown opened a second tunnel (historical witness C16_sccrq_once_refuted_pre_1a77bf9). *)
 Theorem C16_sccrq_once : forall evs, (conn_opens true CNone evs <= 1)%nat.
 Proof. exact sccrq_once. Qed.
 Print Assumptions C16_sccrq_once.
 
-Theorem C16_sccrq_once_refuted : conn_opens false CNone [CSccrq; COther; CTeardown; CSccrq] = 2%nat.
+Theorem C16_sccrq_once_refuted_pre_1a77bf9 : conn_opens false CNone [CSccrq; COther; CTeardown; CSccrq] = 2%nat.
 Proof. exact sccrq_twice_without_linger. Qed.
-Print Assumptions C16_sccrq_once_refuted.
+Print Assumptions C16_sccrq_once_refuted_pre_1a77bf9.
